@@ -528,16 +528,23 @@ pub fn run(tier: Tier, seed: u64, replay: Option<String>) -> i32 {
     let quick = !tier.is_thorough();
     let budget = if quick { 4 } else { 5 };
     let tapes: Vec<(&str, Vec<Vec<u8>>)> = if quick {
-        vec![("two-data-blocks", vec![std_block(0xFF, &[0xA5]), std_block(0xFF, &[0x3C, 0x81])])]
+        vec![
+            ("two-data-blocks", vec![std_block(0xFF, &[0xA5]), std_block(0xFF, &[0x3C, 0x81])]),
+            // a block longer than the 128-byte read buffer first: commands inside its first data bytes
+            // have a buffer refill still ahead
+            ("long-block-first", vec![std_block(0xFF, &(0..200u32).map(|i| (i * 3 + 7) as u8).collect::<Vec<u8>>()), std_block(0xFF, &[0x5A])]),
+        ]
     } else {
         vec![
             ("two-data-blocks", vec![std_block(0xFF, &[0xA5]), std_block(0xFF, &[0x3C, 0x81])]),
             ("hdr+data130", vec![std_block(0x00, &[1, 2, 3]), std_block(0xFF, &(0..128u32).map(|i| (i * 3 + 1) as u8).collect::<Vec<u8>>())]),
         ]
     };
-    for (name, blocks) in tapes.iter() {
-        check_tape(&ctx, name, blocks, budget, quick);
-    }
+    crate::vcore::par_for(tapes.len(), 1, |i| {
+        let (name, blocks) = &tapes[i];
+        let bj = json!({"kind":"deck","tape":name,"blocks":blocks.iter().map(|b| crate::vcore::hex(b)).collect::<Vec<_>>()});
+        ctx.guard(&format!("tape {}", name), bj, || check_tape(&ctx, name, blocks, budget, quick));
+    });
     ctx.note("command_budget", json!(budget));
     ctx.note("not_judged", json!("rewind issued while playing (what the cut block sounds like); EAR level change caused by the rewind command itself"));
     ctx.finish(
